@@ -65,6 +65,9 @@ enum SrcKind {
     Batch,
     NtParser,
     TurtleParser,
+    /// Turtle statements with object and predicate lists: several triples per parser step
+    TurtleMulti,
+    XmlParser,
     VecGraph,
     FastGraph,
 }
@@ -672,6 +675,81 @@ fn document(items: &[MTriple], broken: Option<usize>) -> (Vec<u8>, Vec<usize>) {
     (doc, ends)
 }
 
+const MULTI_SUBJECT: &str = "http://ex.org/S";
+
+/// One Turtle statement per run of items, with `;` and `,`: `<S> <p> <s3> , <s1> ; <q> <s2> .`
+fn document_multi(items: &[MTriple], broken: Option<usize>) -> (Vec<u8>, Vec<usize>) {
+    let mut doc = String::new();
+    let mut ends = vec![];
+    let mut prev_p: Option<&MTerm> = None;
+    for (i, t) in items.iter().enumerate() {
+        if i == 0 {
+            doc.push_str(&format!("<{MULTI_SUBJECT}> "));
+        }
+        if prev_p == Some(&t[1]) {
+            doc.push_str(" , ");
+        } else {
+            if prev_p.is_some() {
+                doc.push_str(" ; ");
+            }
+            doc.push_str(&format!("{} ", t[1]));
+        }
+        prev_p = Some(&t[1]);
+        if broken == Some(i) {
+            doc.push_str("<<<");
+        } else {
+            doc.push_str(&format!("{}", t[2]));
+        }
+        ends.push(doc.len());
+    }
+    if !items.is_empty() {
+        doc.push_str(" .\n");
+        if let Some(last) = ends.last_mut() {
+            *last = doc.len();
+        }
+    }
+    (doc.into_bytes(), ends)
+}
+
+fn document_xml(items: &[MTriple], broken: Option<usize>) -> (Vec<u8>, Vec<usize>) {
+    let mut doc = String::from("<rdf:RDF xmlns:rdf=\"http://www.w3.org/1999/02/22-rdf-syntax-ns#\" xmlns:e=\"http://ex.org/\">\n");
+    let mut ends = vec![];
+    for (i, t) in items.iter().enumerate() {
+        let about = match &t[0] {
+            MTerm::Iri(s) => s.clone(),
+            _ => panic!("ORACLE: XML items have IRI subjects"),
+        };
+        let local = match &t[1] {
+            MTerm::Iri(p) => p.rsplit('/').next().unwrap_or("p").to_string(),
+            _ => panic!("ORACLE: XML items have IRI predicates"),
+        };
+        if broken == Some(i) {
+            doc.push_str(&format!("<rdf:Description rdf:about=\"{about}\"><e:{local} rdf:resource=</rdf:Description>\n"));
+        } else {
+            let prop = match &t[2] {
+                MTerm::Iri(o) => format!("<e:{local} rdf:resource=\"{o}\"/>"),
+                MTerm::Bnode(b) => format!("<e:{local} rdf:nodeID=\"{b}\"/>"),
+                MTerm::Lit(l, d) if d == XSD_STRING => format!("<e:{local}>{l}</e:{local}>"),
+                MTerm::Lit(l, d) => format!("<e:{local} rdf:datatype=\"{d}\">{l}</e:{local}>"),
+                MTerm::Lang(l, tag) => format!("<e:{local} xml:lang=\"{tag}\">{l}</e:{local}>"),
+                _ => panic!("ORACLE: term kind not used in stream items"),
+            };
+            doc.push_str(&format!("<rdf:Description rdf:about=\"{about}\">{prop}</rdf:Description>\n"));
+        }
+        ends.push(doc.len());
+    }
+    doc.push_str("</rdf:RDF>\n");
+    (doc.into_bytes(), ends)
+}
+
+fn document_for(src: SrcKind, items: &[MTriple], broken: Option<usize>) -> (Vec<u8>, Vec<usize>) {
+    match src {
+        SrcKind::TurtleMulti => document_multi(items, broken),
+        SrcKind::XmlParser => document_xml(items, broken),
+        _ => document(items, broken),
+    }
+}
+
 fn execute(setup: &Setup, sf: SrcFault, kf: SinkFault) -> Outcome {
     let ops: Vec<Op> = setup
         .ops
@@ -741,12 +819,12 @@ fn execute(setup: &Setup, sf: SrcFault, kf: SinkFault) -> Outcome {
                     with_chain(src, &ops, drive);
                 }
             }
-            SrcKind::NtParser | SrcKind::TurtleParser => {
+            SrcKind::NtParser | SrcKind::TurtleParser | SrcKind::TurtleMulti | SrcKind::XmlParser => {
                 let broken = match sf {
                     SrcFault::Syntax(k) => Some(k),
                     _ => None,
                 };
-                let (doc, _) = document(&setup.items, broken);
+                let (doc, _) = document_for(setup.src, &setup.items, broken);
                 let plan = RPlan {
                     noise: setup.noise.clone(),
                     fail_at: match sf {
@@ -761,6 +839,10 @@ fn execute(setup: &Setup, sf: SrcFault, kf: SinkFault) -> Outcome {
                 let h = rd.handle();
                 if setup.src == SrcKind::NtParser {
                     with_chain_short(sophia_turtle::parser::nt::parse_bufread(rd), &ops, drive);
+                } else if setup.src == SrcKind::TurtleMulti && setup.consumer.needs_iter() {
+                    with_chain_iter(sophia_turtle::parser::turtle::parse_bufread(rd), &ops, drive);
+                } else if setup.src == SrcKind::XmlParser {
+                    with_chain_short(sophia_xml::parser::parse_bufread(rd), &ops, drive);
                 } else {
                     with_chain_short(sophia_turtle::parser::turtle::parse_bufread(rd), &ops, drive);
                 }
@@ -1020,7 +1102,7 @@ fn check(case: &Case<'_>, twin: &Outcome, out: &Outcome) -> Verdict {
                 fmt_ts(&twin.consumed)
             );
             if let SrcFault::Read(b) = case.sf {
-                let (_, ends) = document(&setup.items, None);
+                let (_, ends) = document_for(setup.src, &setup.items, None);
                 let complete = ends.iter().filter(|e| **e <= b).count();
                 let max_deliverable = model_chain(&setup.items[..complete.min(n)], &ops).0.len();
                 // statement `complete` may be complete up to its final newline
@@ -1295,6 +1377,25 @@ fn nt_line_ser(t: &MTriple) -> String {
 // ---------------------------------------------------------------------------------------------
 // the scenario
 
+fn draw_items_multi(ctx: &mut Ctx, n: usize) -> Vec<MTriple> {
+    // one shared subject; the id is carried by the object; few predicates so that `,` and `;` mix
+    let preds = ["http://ex.org/p", "http://ex.org/q"];
+    let mut ids: Vec<u64> = (0..n as u64).collect();
+    for i in (1..ids.len()).rev() {
+        let j = ctx.tape.below(i + 1);
+        ids.swap(i, j);
+    }
+    ids.iter()
+        .map(|id| {
+            [
+                MTerm::iri(MULTI_SUBJECT),
+                MTerm::iri(preds[ctx.tape.below(preds.len())]),
+                MTerm::Iri(format!("{SUBJ_PREFIX}{id}")),
+            ]
+        })
+        .collect()
+}
+
 fn draw_items(ctx: &mut Ctx, n: usize) -> Vec<MTriple> {
     // unique subject per item (the id), few predicates/objects so that terms collide
     let preds = ["http://ex.org/p", "http://ex.org/q"];
@@ -1332,17 +1433,23 @@ fn run_c15(ctx: &mut Ctx) -> Verdict {
         SrcKind::Iter,
         SrcKind::NtParser,
         SrcKind::TurtleParser,
+        SrcKind::TurtleMulti,
+        SrcKind::XmlParser,
         SrcKind::VecGraph,
         SrcKind::FastGraph,
-    ][ctx.tape.below(9)];
+    ][ctx.tape.below(11)];
     let max_depth = if matches!(src, SrcKind::Iter | SrcKind::Batch) { 3 } else { 1 };
     let depth = ctx.tape.below(max_depth + 1);
     let mut consumer = CONSUMERS[ctx.tape.below(CONSUMERS.len())];
-    if consumer.needs_iter() && !matches!(src, SrcKind::Iter | SrcKind::Batch) {
+    if consumer.needs_iter() && !matches!(src, SrcKind::Iter | SrcKind::Batch | SrcKind::TurtleMulti) {
         consumer = Consumer::TryForEach;
     }
     let n = ctx.tape.below(9);
-    let items = draw_items(ctx, n);
+    let items = if src == SrcKind::TurtleMulti {
+        draw_items_multi(ctx, n)
+    } else {
+        draw_items(ctx, n)
+    };
     let mut ops: Vec<(OpKind, u64, u8)> = (0..depth)
         .map(|_| {
             let kind = [OpKind::Filter, OpKind::Map, OpKind::FilterMap][ctx.tape.below(3)];
@@ -1421,6 +1528,8 @@ fn run_c15(ctx: &mut Ctx) -> Verdict {
         SrcKind::Batch => "source_batching",
         SrcKind::NtParser => "source_nt_parser",
         SrcKind::TurtleParser => "source_turtle_parser",
+        SrcKind::TurtleMulti => "source_turtle_parser_multi_object_statements",
+        SrcKind::XmlParser => "source_rdfxml_parser",
         SrcKind::VecGraph => "source_vec_graph",
         SrcKind::FastGraph => "source_fast_graph",
     });
@@ -1477,11 +1586,11 @@ fn run_c15(ctx: &mut Ctx) -> Verdict {
                 src_faults.push(SrcFault::IterErr(k));
             }
         }
-        SrcKind::NtParser | SrcKind::TurtleParser => {
+        SrcKind::NtParser | SrcKind::TurtleParser | SrcKind::TurtleMulti | SrcKind::XmlParser => {
             for k in 0..n {
                 src_faults.push(SrcFault::Syntax(k));
             }
-            let (doc, ends) = document(&setup.items, None);
+            let (doc, ends) = document_for(setup.src, &setup.items, None);
             let mut start = 0;
             for e in &ends {
                 for b in [start, (start + e) / 2, e - 1] {
@@ -1629,7 +1738,7 @@ fn main() {
             "single fault per execution (one source fault or one sink fault)",
             "<= 8 items per pipeline, chains up to depth 3 on the iterator source and depth <= 1 on parser and store sources",
             "read errors inside a statement: only prefix-ness and 'nothing beyond the offset' are asserted (the parser decides which statement it was in)",
-            "JSON-LD and RDF/XML parser sources are not part of this catalogue yet",
+            "the JSON-LD parser source (documented as buffering) is not part of this catalogue",
         ],
         panic_is_violation: true,
         death_is_violation: true,
